@@ -26,9 +26,13 @@ pub fn run(inp: &Inp, cuts: &[usize], mode: &str) -> Sess {
         while !b.is_empty() {
             let before = b.len();
             match dec.decode(&mut b) {
-                Ok(Some(batch)) => s.batches.push(tok::batch_rows(&batch)),
-                Ok(None) => {}
+                Ok(Some(batch)) => {
+                    s.batches.push(tok::batch_rows(&batch));
+                    s.gave.push(1);
+                }
+                Ok(None) => s.gave.push(0),
                 Err(e) => {
+                    s.gave.push(0);
                     s.call(before, before - b.len());
                     s.fail("decode", &variant(&e));
                     s.schema = dec.schema().map(|x| tok::schema_str(&x)).unwrap_or_default();
@@ -112,6 +116,72 @@ fn framing(bytes: &[u8]) -> (Vec<usize>, &'static str) {
     }
 }
 
+/// the framing of a stream the writer produced (for the byte-level binding to IpcFraming.tla):
+/// per message (metadata length, body length, kind 0 schema / 1 batch / 2 dictionary)
+#[derive(Clone, Default)]
+pub struct IpcFrame {
+    pub msgs: Vec<[i64; 3]>,
+    pub legacy: bool,
+    pub eos: bool,
+    pub extra: usize,
+    pub full_len: usize,
+}
+
+/// walk a complete stream; None when it is not a clean sequence of schema / batch / dictionary messages
+fn describe(full: &[u8]) -> Option<IpcFrame> {
+    let n = full.len();
+    let mut f = IpcFrame { full_len: n, ..Default::default() };
+    let mut pos = 0usize;
+    let mut conts: Vec<bool> = vec![];
+    loop {
+        if pos == n {
+            break;
+        }
+        if pos + 4 > n {
+            return None;
+        }
+        let mut w = u32::from_le_bytes(full[pos..pos + 4].try_into().unwrap());
+        pos += 4;
+        let cont = w == 0xFFFF_FFFF;
+        if cont {
+            if pos + 4 > n {
+                return None;
+            }
+            w = u32::from_le_bytes(full[pos..pos + 4].try_into().unwrap());
+            pos += 4;
+        }
+        conts.push(cont);
+        if w == 0 {
+            f.eos = true;
+            f.extra = n - pos;
+            break;
+        }
+        let len = w as usize;
+        if pos + len > n {
+            return None;
+        }
+        let msg = arrow_ipc::root_as_message(&full[pos..pos + len]).ok()?;
+        let kind = match msg.header_type() {
+            arrow_ipc::MessageHeader::Schema => 0,
+            arrow_ipc::MessageHeader::RecordBatch => 1,
+            arrow_ipc::MessageHeader::DictionaryBatch => 2,
+            _ => return None,
+        };
+        let body = msg.bodyLength().max(0) as usize;
+        pos += len;
+        if pos + body > n {
+            return None;
+        }
+        pos += body;
+        f.msgs.push([len as i64, body as i64, kind]);
+    }
+    if conts.iter().any(|c| *c != conts[0]) {
+        return None;
+    }
+    f.legacy = conts.first().map(|c| !*c).unwrap_or(false);
+    Some(f)
+}
+
 fn write(schema: &Arc<Schema>, batches: &[RecordBatch], opts: IpcWriteOptions, eos: bool) -> Vec<u8> {
     let mut w = StreamWriter::try_new_with_options(Vec::new(), schema, opts).unwrap();
     for b in batches {
@@ -127,6 +197,12 @@ fn write(schema: &Arc<Schema>, batches: &[RecordBatch], opts: IpcWriteOptions, e
 }
 
 fn mk_inp(name: &str, bytes: Vec<u8>, pinned_hint: &'static str) -> Inp {
+    mk_inp_of(name, bytes, pinned_hint, None)
+}
+
+/// `origin`: the complete stream `bytes` is a prefix of (None: `bytes` itself is complete)
+fn mk_inp_of(name: &str, bytes: Vec<u8>, pinned_hint: &'static str, origin: Option<&[u8]>) -> Inp {
+    let frame = describe(origin.unwrap_or(&bytes)).filter(|f| origin.unwrap_or(&bytes).starts_with(&bytes) && f.full_len >= bytes.len());
     let (marks, tail) = framing(&bytes);
     let pinned = if !pinned_hint.is_empty() {
         pinned_hint
@@ -151,7 +227,7 @@ fn mk_inp(name: &str, bytes: Vec<u8>, pinned_hint: &'static str) -> Inp {
         bytes,
         marks,
         bodies: vec![],
-        cfg: Cfg::Ipc,
+        cfg: Cfg::Ipc(frame),
         uses_bs: false,
         allow_empty: true,
         pinned,
@@ -244,7 +320,7 @@ pub fn inputs(rng: &mut Rng, thorough: bool) -> Vec<Inp> {
     for (i, &m) in am.iter().enumerate().filter(|(i, _)| [2usize, 3, 4, 6, 7, 9].contains(i)) {
         for d in [0usize, 3] {
             let cut = (m + d).min(a.len() - 1);
-            out.push(mk_inp(&format!("prim-trunc{i}+{d}"), a[..cut].to_vec(), ""));
+            out.push(mk_inp_of(&format!("prim-trunc{i}+{d}"), a[..cut].to_vec(), "", Some(&a)));
         }
     }
     // corrupted metadata length of the second message (8 more / 8 less)
